@@ -68,6 +68,17 @@ class BettingMonitor(Monitor):
         st = s.street
         first = s.street is s.streets[0]
         collected = (sum(s.starting_stacks) - sum(s.stacks) - sum(s.bets))
+        # the first actor of the round comes from the independent opener
+        # model (the same one C13 uses), not from the engine
+        from vflib.ref import opener as _opener
+        exp_first = _opener.first_actor(s)
+        ctx.counters['round_openers_compared'] += 1
+        if exp_first is not None and exp_first != s.actor_index:
+            ctx.violate(
+                f'round on street {s.street_index} is opened by player '
+                f'{s.actor_index}, the opener model says {exp_first} (bets '
+                f'{s.bets}, stacks {s.stacks}, statuses {s.statuses}, '
+                f'blinds {s.blinds_or_straddles})')
         self.ref = RefRound(
             s.player_count, s.statuses, s.stacks, s.bets,
             str(s.betting_structure),
